@@ -11,7 +11,13 @@ import (
 func init() { propChecks["C16"] = checkC16 }
 
 // levels: 0 flag, 1 env, 2 config file, 3 default
-var c16Fmt = []string{"2006-01-02", "02.01.2006", "2006/02/01", "2006/01/02"}
+// three sets of layouts (flag, variable, file, default): the fields may be spelt in every way Go's layouts allow -
+// two-digit year, month name, unpadded numbers, no separators
+var c16FmtSets = map[int][]string{
+	3: {"2006-01-02", "02.01.2006", "2006/02/01", "2006/01/02"},
+	5: {"06-01-02", "2.1.2006", "Jan 2 2006", "2006/01/02"},
+	8: {"02-Jan-2006", "1/2/06", "20060102", "2006/01/02"},
+}
 var c16Depth = []int{2, 4, 6, 10}
 var c16Db = []string{"book_flag.yaml", "book_env.yaml", "book_cfg.yaml", "food.yaml"}
 var c16Log = []string{"log_flag.yaml", "log_env.yaml", "log_cfg.yaml", "log.yaml"}
@@ -64,6 +70,7 @@ func checkC16(w *Worker) {
 			}
 			return 3
 		}
+		c16Fmt := c16FmtSets[L]
 		effFmt := c16Fmt[level(2)]
 		effDepth := c16Depth[level(3)]
 		effDb := c16Db[level(0)]
@@ -178,6 +185,12 @@ func checkC16(w *Worker) {
 				return
 			}
 			x.Obs(ra.Key())
+			if ra.Failed && !strings.Contains(ra.Err, depthErrText) {
+				// every value in this product is a legal one: the only failure a cell may end in is the depth limit it sets
+				x.Violate("C16|legal-settings-rejected", fmt.Sprintf("sources: flags %v env %v config entries %v, date format %q, depth %d, chain length %d\n`%s`\nfails: %s", flagSet, envSet, cfgSet, effFmt, effDepth, L, act.shell(), ra.String()),
+					map[string]interface{}{"cmd": act.shell(), "observed": ra.String()})
+				return
+			}
 			x.Sample(map[string]interface{}{"cmd": act.shell(), "equivalent_flags_only": exp.shell(), "stdout": ra.Stdout, "error": ra.Err})
 			if ra.Key() != re.Key() {
 				// which setting is off? (diagnosis for the signature only)
